@@ -494,7 +494,7 @@ func genModCase(rt *rapid.T) ModCase {
 
 func runModules(t *testing.T) {
 	H.Rule("modules", "rapid: 1–3 local-css files with local classes/ids from a 4-name pool (so the same local name occurs in several files), :global() names incl. one-letter ones, :local(), mixed selectors, @keyframes + animation-name/animation users, composes (same file, other file, global); every rule carries a unique z-index marker; bundled through a JS entry that logs the imported name objects (IIFE, executed in Node) × minify-identifiers × minify-syntax; checks: exported own name (last token) substituted into the selector template equals the selector of the emitted rule with that marker, every local name is exported, distinct (file,name) pairs get distinct output names per kind, global names are unchanged and never taken by a renamed local class, composes lists and animation references follow the renaming; non-trivial = at least two distinct local names were renamed")
-	H.SetupRapid("modules", H.N(1500, 50000))
+	H.SetupRapid("modules", H.N(1500, 100000))
 	rapid.Check(t, func(rt *rapid.T) {
 		c := genModCase(rt)
 		b, _ := json.Marshal(c)
